@@ -1,4 +1,6 @@
 import CkbVerif.Lemmas.MoleculeAccess
+import CkbVerif.Lemmas.Compact
+import CkbVerif.Model.Frame
 import CkbVerif.Gen.Schemas
 /-!
 # C16 — bytes from peers can be rejected but never crash the node or forge a block
@@ -184,5 +186,222 @@ example : verify true (.table [.byte, .fixvec .byte]) [18, 0, 0, 0, 12, 0, 0, 0,
   decide +kernel
 example : (tableField 2 1 [18, 0, 0, 0, 12, 0, 0, 0, 13, 0, 0, 0, 5, 1, 0, 0, 0, 9]).start = 13 ∧
     (tableField 2 1 [18, 0, 0, 0, 12, 0, 0, 0, 13, 0, 0, 0, 5, 1, 0, 0, 0, 9]).stop = 18 := by decide +kernel
+
+/-! ## (a') the extension slot (F16): `extra_field(0)` / `extension()` -/
+
+open CkbVerif.Compact in
+/-- on a table accepted in compatible mode, `extra_field(index)` reads and slices inside the buffer -/
+theorem extension_accessor_in_bounds (f : Schema) (fs : List Schema) (bs : Bytes) (index : Nat)
+    (h : verify true (.table (f :: fs)) bs = true) (a : Access)
+    (ha : extraFieldAccess (f :: fs).length index bs = some a) : a.safe bs := by
+  simp only [verify] at h
+  split at h
+  · simp at h
+  · rename_i offs ho
+    obtain ⟨k, hk1, hlen, hhdr, h8, hnum, hfcnt, hlast, hget, hstep, hle⟩ := dynHeader_offsets bs offs ho
+    generalize (f :: fs).length = n at *
+    unfold extraFieldAccess at ha
+    simp only [hfcnt] at ha
+    split at ha
+    · rename_i hc
+      have e1 : (1 + n + index) * 4 = 4 * (n + index + 1) := by omega
+      have e2 : (1 + n + index) * 4 + 4 = 4 * (n + index + 1 + 1) := by omega
+      split at ha
+      · rename_i hlastf
+        simp only [Option.some.injEq] at ha
+        subst ha
+        refine ⟨?_, ?_, Nat.le_refl _⟩
+        · intro p hp
+          simp only [List.mem_cons, List.mem_nil_iff, or_false] at hp
+          omega
+        · show num (bs.drop ((1 + n + index) * 4)) ≤ bs.length
+          rw [e1, ← hget (n + index) (by omega)]
+          exact hle (n + index) (by omega)
+      · rename_i hnl
+        simp only [Option.some.injEq] at ha
+        subst ha
+        refine ⟨?_, ?_, ?_⟩
+        · intro p hp
+          simp only [List.mem_cons, List.mem_nil_iff, or_false] at hp
+          omega
+        · show num (bs.drop ((1 + n + index) * 4)) ≤ num (bs.drop ((1 + n + index) * 4 + 4))
+          have e3 : 4 * (n + index + 1) + 4 = 4 * (n + index + 1 + 1) := by omega
+          rw [e1, e3, ← hget (n + index) (by omega), ← hget (n + index + 1) (by omega)]
+          exact hstep (n + index) (by omega)
+        · show num (bs.drop ((1 + n + index) * 4 + 4)) ≤ bs.length
+          rw [e2, ← hget (n + index + 1) (by omega)]
+          exact hle (n + index + 1) (by omega)
+    · simp at ha
+
+open CkbVerif.Compact in
+/-- `extension()` is total and yields only strictly valid `Bytes` (a malformed extra field is `none`) -/
+theorem extension_total_and_valid (n : Nat) (bs d : Bytes) (h : extensionOf n bs = some d) :
+    verify false CkbVerif.Gen.Schemas.S.Bytes d = true := by
+  unfold extensionOf at h
+  split at h
+  · simp only at h
+    split at h
+    · rename_i hv
+      simp only [Option.some.injEq] at h
+      subst h
+      exact hv
+    · simp at h
+  · simp at h
+
+/-! ## (c) compact-block reconstruction -/
+
+section Reconstruct
+open CkbVerif.Compact
+
+variable (h : Hashes) (cb : CB) (received : List Tx) (pool : Nat → Option Tx) (src : Nat → UncleSrc) (fromPeer : List Nat)
+
+/-- If reconstruction yields a block, it is the block the compact header commits to: same header
+(hence same hash — with F19 repaired this is unconditional), its transaction list is the slot
+layout of the compact block with every slot resolved (prefilled entries verbatim, every other
+position a transaction that was looked up under the short id listed for it), the recomputed
+transactions root / proposals hash / extra hash equal the header's, proposals and extension are
+the compact block's, and no uncle is missing. -/
+theorem reconstruct_sound (b : Block) (hr : reconstruct h cb received pool src fromPeer = .block b) :
+    b.header = cb.header ∧
+    h.root b.txs = cb.header.txRoot ∧ h.phash b.proposals = cb.header.proposalsHash ∧
+    h.ehash b.uncles b.extension = cb.header.extraHash ∧
+    b.proposals = cb.proposals ∧ b.extension = cb.extension ∧
+    b.txs.map some = (layout cb).map (resolve (txsMap cb received pool)) ∧
+    unclesGo src fromPeer cb.uncles 0 = some (b.uncles, []) := by
+  unfold reconstruct at hr
+  simp only at hr
+  split at hr
+  · simp at hr
+  · rename_i uncles mu hu
+    split at hr
+    · rename_i txs hall
+      split at hr
+      · split at hr <;> simp at hr
+      · split at hr
+        · simp at hr
+        · rename_i hroot hhd
+          simp only [Result.block.injEq] at hr
+          subst hr
+          have hhd' : resetHeader h cb.header txs cb.proposals uncles cb.extension = cb.header := by
+            apply Classical.byContradiction
+            intro hc; exact hhd hc
+          have hf := congrArg Header.txRoot hhd'
+          have hp := congrArg Header.proposalsHash hhd'
+          have he := congrArg Header.extraHash hhd'
+          simp only [resetHeader] at hf hp he
+          exact ⟨hhd', hf, hp, he, rfl, rfl, allSome_map_some _ _ hall, hu⟩
+    · simp at hr
+
+/-- every transaction placed at a short-id position carries exactly that short id
+(the pool is assumed to answer a short id only with a transaction of that short id) -/
+theorem reconstruct_short_positions (b : Block) (hpool : ∀ sid t, pool sid = some t → t.sid = sid)
+    (hr : reconstruct h cb received pool src fromPeer = .block b) (i : Nat) (sid : Nat)
+    (hs : (layout cb)[i]? = some (.short sid)) : ∃ t, b.txs[i]? = some t ∧ t.sid = sid := by
+  have hmap := (reconstruct_sound h cb received pool src fromPeer b hr).2.2.2.2.2.2.1
+  have h1 : (b.txs.map some)[i]? = ((layout cb).map (resolve (txsMap cb received pool)))[i]? := by rw [hmap]
+  simp only [List.getElem?_map, hs, Option.map_some, resolve] at h1
+  cases hb : b.txs[i]? with
+  | none => simp [hb] at h1
+  | some t =>
+    simp only [hb, Option.map_some, Option.some.injEq] at h1
+    exact ⟨t, rfl, txsMap_sid cb received pool hpool sid t h1.symm⟩
+
+/-- … and prefilled positions carry the prefilled transaction itself -/
+theorem reconstruct_prefilled_positions (b : Block)
+    (hr : reconstruct h cb received pool src fromPeer = .block b) (i : Nat) (t : Tx)
+    (hs : (layout cb)[i]? = some (.pre t)) : b.txs[i]? = some t := by
+  have hmap := (reconstruct_sound h cb received pool src fromPeer b hr).2.2.2.2.2.2.1
+  have h1 : (b.txs.map some)[i]? = ((layout cb).map (resolve (txsMap cb received pool)))[i]? := by rw [hmap]
+  simp only [List.getElem?_map, hs, Option.map_some, resolve] at h1
+  cases hb : b.txs[i]? with
+  | none => simp [hb] at h1
+  | some t' => simpa [hb] using h1
+
+/-- with a collision-free transactions root the result cannot be any other body than the one the
+header commits to: never a different block -/
+theorem reconstruct_forge_free (b : Block) (committed : List Tx)
+    (hinj : ∀ l1 l2, h.root l1 = h.root l2 → l1 = l2) (hc : h.root committed = cb.header.txRoot)
+    (hr : reconstruct h cb received pool src fromPeer = .block b) : b.txs = committed ∧ b.header = cb.header := by
+  have hs := reconstruct_sound h cb received pool src fromPeer b hr
+  exact ⟨hinj _ _ (hs.2.1.trans hc.symm), hs.1⟩
+
+/-- the missing report lists exactly the positions whose short id could not be resolved -/
+theorem reconstruct_missing_precise (ixs us : List Nat)
+    (hr : reconstruct h cb received pool src fromPeer = .missing ixs us) (i : Nat) :
+    i ∈ ixs ↔ ∃ sid, (layout cb)[i]? = some (.short sid) ∧ txsMap cb received pool sid = none := by
+  unfold reconstruct at hr
+  simp only at hr
+  split at hr
+  · simp at hr
+  · split at hr
+    · split at hr
+      · split at hr <;> simp at hr
+      · split at hr <;> simp at hr
+    · simp only [Result.missing.injEq] at hr
+      rw [← hr.1, mem_noneIndexes]
+      simp only [Nat.zero_add, Nat.sub_zero, Nat.zero_le, true_and, List.getElem?_map]
+      constructor
+      · intro hm
+        cases hl : (layout cb)[i]? with
+        | none => simp [hl] at hm
+        | some slot =>
+          cases slot with
+          | pre t => simp [hl, resolve] at hm
+          | short sid =>
+            refine ⟨sid, rfl, ?_⟩
+            simpa [hl, resolve] using hm
+      · rintro ⟨sid, hl, hn⟩
+        simp [hl, resolve, hn]
+
+/-- the layout has one slot per transaction of the block, whatever the prefilled indexes are -/
+theorem layout_length : (layout cb).length = txsLen cb := by
+  unfold layout txsLen
+  exact layoutGo_length _ _ _
+
+/-- non-vacuity: a compact block with a prefilled cellbase and one short id, the transaction received -/
+example :
+    let hs : Hashes := { root := fun l => (l.map (·.id)).sum + 100 * l.length, phash := fun l => l.length, ehash := fun l _ => l.length }
+    let cb : CB := { header := { txRoot := hs.root [⟨1, 1⟩, ⟨2, 2⟩], proposalsHash := 0, extraHash := 0, other := 7 },
+                     shortIds := [2], prefilled := [(0, ⟨1, 1⟩)], uncles := [], proposals := [], extension := none }
+    cbVerify cb = none ∧
+    reconstruct hs cb [⟨2, 2⟩] (fun _ => none) (fun _ => .missing) [] =
+      .block { header := cb.header, uncles := [], txs := [⟨1, 1⟩, ⟨2, 2⟩], proposals := [], extension := none } ∧
+    reconstruct hs cb [] (fun _ => none) (fun _ => .missing) [] = .missing [1] [] := by decide +kernel
+
+end Reconstruct
+
+/-! ## (b) network frames -/
+
+section Frames
+open CkbVerif.Frame CkbVerif.Gen.Codec
+
+/-- whatever `decompress` returns for a compressed frame is at most `MAX_UNCOMPRESSED_LEN` long, and
+for an uncompressed frame it is the frame without its flag byte (decoder contract: exactly the
+declared length or an error) -/
+theorem decompress_bounded (bs : Frame.Bytes) (n : Nat) (ho : outputLen (decompressDecision bs) = some n) :
+    n ≤ MAX_UNCOMPRESSED_LEN ∨ n + 1 = bs.length := by
+  unfold decompressDecision at ho
+  split at ho
+  · simp [outputLen] at ho
+  · rename_i b rest
+    split at ho
+    · split at ho
+      · split at ho
+        · simp [outputLen] at ho
+        · rename_i hn
+          simp only [outputLen, Option.some.injEq] at ho
+          left; omega
+      · simp [outputLen] at ho
+    · simp only [outputLen, Option.some.injEq] at ho
+      right; simp [← ho]
+
+/-- `compress` takes the snappy branch exactly above the threshold -/
+theorem compress_threshold (len : Nat) : compressTaken len = true ↔ COMPRESSION_SIZE_THRESHOLD ≤ len := by
+  simp [compressTaken]; omega
+
+example : outputLen (decompressDecision [0x80, 0x03, 0x08, 0x61, 0x62, 0x63]) = some 3 := by decide +kernel
+example : outputLen (decompressDecision [0x80, 0x81, 0x80, 0x80, 0x04, 0x00]) = none := by decide +kernel
+
+end Frames
 
 end CkbVerif.C16
